@@ -155,7 +155,8 @@ impl<'a> AliasLexer<'a> {
     }
 
     fn get_feature(&mut self) -> Result<Option<AliasToken>, AliasSyntaxError> {
-        if !self.inside_matrix || self.curr_char() != '+' && self.curr_char() != '-' && !matches!(self.curr_char(), 'α'..='ω') && !self.curr_char().is_ascii_uppercase() {
+        // aliases have nothing to bind an alpha to: only `+` and `-` can modify a feature here
+        if !self.inside_matrix || self.curr_char() != '+' && self.curr_char() != '-' {
             return Ok(None);
         }
         
@@ -164,13 +165,7 @@ impl<'a> AliasLexer<'a> {
 
         self.advance();
         
-        let mod_val = if val == '-' && (matches!(self.curr_char(), 'α'..='ω') || self.curr_char().is_ascii_uppercase()) {
-            let mut tmp = String::from('-'); tmp.push(self.curr_char());
-            self.advance();
-            tmp
-        } else {
-            String::from(val)
-        };
+        let mod_val = String::from(val);
 
         self.trim_whitespace();
         
